@@ -113,6 +113,10 @@ var DefaultPlugins = [][2]string{
 	{"apply", "deriveApply"},
 }
 
+// ImportNames: the names under which the plugin constructors import packages (p.NewImport(name, path)); since
+// c630945 they are in the shared reserved set of every package. Compared with the source by `facts` (T4).
+var ImportNames = []string{"bytes", "fmt", "math", "reflect", "sort", "strconv", "strings", "sync", "unsafe"}
+
 // kindOf: the argument check of the plugin's Add, as far as the generated packages exercise it.
 func kindOf(plugin string) string {
 	switch plugin {
@@ -292,15 +296,25 @@ func (c *Case) reservedFile(out map[string]string) {
 				fmt.Fprintf(&sb, "var %s = func(a, b int) int { return a + b }\n\n", r)
 			case "type": // a declared type, "called" as a conversion
 				fmt.Fprintf(&sb, "type %s int\n\n", r)
+			// names of the package scope that are never called (3777c2e: reserved all the same)
+			case "func0":
+				fmt.Fprintf(&sb, "func %s() {}\n\n", r)
+			case "var0":
+				fmt.Fprintf(&sb, "var %s = 1\n\n", r)
+			case "const0":
+				fmt.Fprintf(&sb, "const %s = 1\n\n", r)
+			case "type0":
+				fmt.Fprintf(&sb, "type %s struct{}\n\n", r)
 			default:
 				fmt.Fprintf(&sb, "func %s(a, b int) int { return a + b }\n\n", r)
 			}
 		}
 		sb.WriteString("func useReserved() int {\n\tn := 0\n")
 		for i, r := range c.Reserved {
-			if form(i) == "type" {
+			switch form(i) {
+			case "type":
 				fmt.Fprintf(&sb, "\tn += int(%s(3))\n", r)
-			} else {
+			case "func", "var":
 				fmt.Fprintf(&sb, "\tn += %s(1, 2)\n", r)
 			}
 		}
@@ -356,6 +370,9 @@ func (c *Case) ModelLine(id string, v Variant) string {
 	}
 	fmt.Fprintf(&sb, "op %s regall (flags %s %s", id, b(v.Autoname), b(v.Dedup))
 	for _, r := range c.Reserved {
+		sb.WriteString(" " + Esc(r))
+	}
+	for _, r := range ImportNames {
 		sb.WriteString(" " + Esc(r))
 	}
 	sb.WriteString(") (plugins")
